@@ -98,7 +98,7 @@ func VerifC02_EndToEnd() {
 		inhibit.NewInhibitor(alerts, nil, logger, eventrecorder.Recorder{}),
 		silence.NewSilencer(sils, logger, eventrecorder.Recorder{}),
 		timeinterval.NewIntervener(nil), gm, nlog, nil)
-	giD := []time.Duration{time.Minute, 5 * time.Minute}[vfChoice("groupInterval", 1+vfTier())]
+	giD := time.Minute
 	gw, gi := model.Duration(0), model.Duration(giD)
 	ri := model.Duration(time.Nanosecond)
 	route := NewRoute(&config.Route{Receiver: "r", GroupBy: []model.LabelName{"alertname"}, GroupWait: &gw, GroupInterval: &gi, RepeatInterval: &ri}, nil)
@@ -133,7 +133,7 @@ func VerifC02_EndToEnd() {
 	activeFrom := vfNow().Add(startIn)
 	maxLen := 150
 	if vfTier() > 0 {
-		maxLen = 900
+		maxLen = 400
 	}
 	ownEnd := activeFrom.Add(vfSeconds("length", 30, maxLen))
 	s := &silencepb.Silence{
